@@ -91,3 +91,28 @@ package defers
 //@   loop 3 invariant complete_b{exit2,bounds,fresh,frame_a,frame_b,complete_b,cmp_refl,cmp_antisym}: forall i int :: 0 <= i && i < bIndex ==> hasEq(b[i], r, len(r))
 //@   loop 3 invariant same{exit2,sorted_a,bounds,fresh,frame_a,frame_b,same,complete_a,below_b,cmp_antisym,cmp_trans_lt,cmp_trans_eq_lt,cmp_trans_lt_eq}: sameAsA <==> (forall i int :: 0 <= i && i < bIndex ==> hasEq(b[i], a, len(a)))
 //@   loop 3 decreases len(b) - bIndex
+
+// stackPushed returns s ++ [(block, ins)] in a FRESH array: a later append to s
+// can never overwrite the pushed entry (stacks behave as immutable values).
+//@ func stackPushed
+//@   property C16
+//@   ensures length: len(result) == len(s) + 1
+//@   ensures prefix: forall k int :: 0 <= k && k < len(s) ==> result[k] == s[k]
+//@   ensures pushed: result[len(s)].Block == block && result[len(s)].Ins == ins
+//@   ensures fresh: isfresh(result)
+//@   modifies nothing
+
+// dataflowTransfer: RunDefers resets to the single empty stack; non-defer
+// instructions are the identity; a Defer reports `repeated` exactly when some
+// incoming stack already contains this defer instruction.
+//@ spec holds(s Stack, block int, ins int) bool = exists j int :: 0 <= j && j < len(s) && s[j].Block == block && s[j].Ins == ins
+//@ func dataflowTransfer
+//@   property C16
+//@   requires instr != nil
+//@   ensures rundefers: istype(*instr, *ssa.RunDefers) ==> len(final) == 1 && len(final[0]) == 0 && !repeated
+//@   ensures identity: !istype(*instr, *ssa.Defer) && !istype(*instr, *ssa.RunDefers) ==> final == initial && !repeated
+//@   ensures repeated_exact: istype(*instr, *ssa.Defer) ==> (repeated <==> old(exists i int :: 0 <= i && i < len(initial) && holds(initial[i], block, ins)))
+//@   loop stack invariant fresh: isfresh(newStacks)
+//@   loop stack invariant frame: forall i int :: 0 <= i && i < len(initial) ==> initial[i] == old(initial[i])
+//@   loop stack invariant rep: repeated <==> old(exists i int :: 0 <= i && i < iter(stack) && holds(initial[i], block, ins))
+//@   loop entry invariant rep_inner: thisStackRepeated <==> (exists j int :: 0 <= j && j < iter(entry) && stack[j].Block == block && stack[j].Ins == ins)
